@@ -121,16 +121,51 @@ Proof.
   - injection H as _ <-. destruct Hp.
 Qed.
 
+Definition no_dot (l : list comp) : Prop := forall c, In c l -> c <> ".".
+
+Lemma walk1d_walk1 : forall fs todo cur f, no_dot todo ->
+  (forall a b, walk1 fs cur todo f <> WExpand a b) -> walk1d fs cur todo f = walk1 fs cur todo f.
+Proof.
+  intros fs todo. induction todo as [|c rest IH]; intros cur f ND NE; cbn [walk1 walk1d]; [reflexivity|].
+  assert (Ed : String.eqb c "." = false) by (apply String.eqb_neq; apply ND; left; reflexivity). rewrite Ed.
+  assert (ND' : no_dot rest) by (intros x Hx; apply ND; right; exact Hx).
+  cbn [walk1] in NE.
+  destruct (String.eqb c "..").
+  - apply IH; assumption.
+  - destruct (look fs (cur ++ [c])) as [[i| |t]|].
+    + reflexivity.
+    + apply IH; assumption.
+    + destruct rest as [|c2 rest']; destruct f; try reflexivity;
+        destruct (String.eqb t ""); try reflexivity; exfalso; eapply NE; reflexivity.
+    + reflexivity.
+Qed.
+
+Lemma resolved_raw_is_request : forall fs ptxt cs follow q, inodes_fresh fs -> no_dotdot cs -> no_dot cs -> no_links_on fs cs ->
+  raw_todo ptxt = cs -> resolved_raw fs ptxt follow = Some q -> q = cs.
+Proof.
+  intros fs ptxt cs follow q F ND NDot NL RAW H. unfold resolved_raw, resolve_raw in H. rewrite RAW in H.
+  destruct (plain_of_no_links fs cs ND NL) as [P L].
+  pose proof (walk1_plain fs cs [] follow ND) as W1. cbn [app] in W1.
+  assert (NLP : no_link_parents fs [] cs) by (intros a b t E NA NB; cbn [app]; apply (NL a b t E NA)).
+  specialize (W1 NLP).
+  assert (NE : forall a b, walk1 fs [] cs follow <> WExpand a b).
+  { intros a b E. rewrite E in W1. destruct W1 as [_ [t Ht]]. exact (L t Ht). }
+  unfold max_links in H. cbn [walkd] in H. rewrite (walk1d_walk1 fs cs [] follow NDot NE) in H.
+  destruct (walk1 fs [] cs follow) as [q'| | |] eqn:E; try discriminate.
+  - injection H as <-. exact W1.
+  - exfalso. exact (NE _ _ eq_refl).
+Qed.
+
 Theorem touched_within_request_proof : forall allowed fs r cs,
   inodes_fresh fs ->
   validate_path allowed (request_path r) = VOk cs ->
   no_links_on fs cs ->
-  split_path (request_path r) = cs ->
+  raw_todo (request_path r) = cs -> no_dot cs ->
   forall p, In p (o_touched (exec allowed fs r)) ->
     is_prefix cs p = true \/
     (exists path data, r = RUpload path data /\ In p (changed_paths fs (fst (mkdir_all fs (parent cs))))).
 Proof.
-  intros allowed fs r cs F V NL RAW p Hp.
+  intros allowed fs r cs F V NL RAW NDot p Hp.
   pose proof (validate_no_dotdot _ _ _ V) as ND.
   assert (RES : forall follow q, resolved fs cs follow = Some q -> q = cs) by (intros; eapply resolved_is_request; eassumption).
   destruct r as [path data|path|path|path|path mode|path rc]; cbn [request_path] in V, RAW; unfold exec in Hp; rewrite ?V in Hp.
@@ -155,11 +190,13 @@ Proof.
       pose proof (resolve_inside [] fs nd_nil fs2 cs true I2 (plain_mono [] fs fs2 cs M12 P) (fun _ => last_mono [] fs fs2 cs M12 L)) as R.
       cbn [app] in R. destruct (resolve fs2 cs true); try discriminate. injection Hp as <-. subst. apply is_prefix_refl.
   - (* download *)
-    rewrite RAW in Hp.
+    assert (RR : forall follow q, resolved_raw fs path follow = Some q -> q = cs)
+      by (intros; eapply resolved_raw_is_request; eassumption).
     destruct (negb _); [destruct Hp|].
-    destruct (sys_stat fs cs) as [[[i| |t]|]|e]; cbn [failed refused o_touched] in Hp; try (destruct Hp; fail);
-      try (apply in_app_or in Hp; destruct Hp as [Hp|Hp]; apply opt_list_in in Hp; apply RES in Hp; subst; left; apply is_prefix_refl).
-    all: try (apply opt_list_in in Hp; apply RES in Hp; subst; left; apply is_prefix_refl).
+    destruct (look_raw fs path true) as [[o|]|e]; [|destruct Hp|destruct Hp].
+    destruct (sys_stat fs cs) as [[[i| |t]|]|e]; cbn [failed refused o_touched] in Hp;
+      try (apply in_app_or in Hp; destruct Hp as [Hp|Hp]; apply opt_list_in in Hp; [apply RR in Hp|apply RES in Hp]; subst; left; apply is_prefix_refl);
+      try (apply opt_list_in in Hp; apply RR in Hp; subst; left; apply is_prefix_refl).
   - (* list *)
     destruct (String.eqb path ""); [destruct Hp|]. rewrite ?V in Hp.
     destruct (sys_stat fs cs) as [[[i| |t]|]|e]; destruct (resolved fs cs true) as [q|] eqn:R; cbn [failed o_touched] in Hp;
@@ -243,13 +280,13 @@ Theorem touched_allowed_without_links_proof : forall allowed fs r cs,
   inodes_fresh fs ->
   validate_path allowed (request_path r) = VOk cs ->
   no_links_on fs cs ->
-  split_path (request_path r) = cs ->
+  raw_todo (request_path r) = cs -> no_dot cs ->
   forall p, In p (o_touched (exec allowed fs r)) ->
     matches_allow allowed p = true \/
     (exists path data, r = RUpload path data /\ In p (changed_paths fs (fst (mkdir_all fs (parent cs))))).
 Proof.
-  intros allowed fs r cs F V NL RAW p Hp.
-  destruct (touched_within_request_proof allowed fs r cs F V NL RAW p Hp) as [H|H]; [left|right; exact H].
+  intros allowed fs r cs F V NL RAW NDot p Hp.
+  destruct (touched_within_request_proof allowed fs r cs F V NL RAW NDot p Hp) as [H|H]; [left|right; exact H].
   apply is_prefix_spec in H. destruct H as [x ->]. apply matches_allow_descend. eapply validate_matches. exact V.
 Qed.
 
@@ -258,7 +295,7 @@ Lemma c26_nonvacuous_proof :
   let fs := build_fs [IDir "allowed"; IDir "allowed/sub"; IFile "allowed/sub/deep.txt" "DEEP"] in
   let r := RDownload "/allowed/sub/deep.txt" in
   validate_path ["/allowed"] (request_path r) = VOk ["allowed"; "sub"; "deep.txt"] /\
-  split_path (request_path r) = ["allowed"; "sub"; "deep.txt"] /\
+  raw_todo (request_path r) = ["allowed"; "sub"; "deep.txt"] /\
   o_code (exec ["/allowed"] fs r) = 0%N /\ o_payload (exec ["/allowed"] fs r) = "DEEP" /\
   o_touched (exec ["/allowed"] fs r) = [["allowed"; "sub"; "deep.txt"]; ["allowed"; "sub"; "deep.txt"]].
 Proof. vm_compute. repeat split; reflexivity. Qed.
